@@ -72,7 +72,7 @@ T_Exit == /\ IsEvent("exit")
                 THEN G(IF act[tmr[t].a].rtaken > 0 /\ tmr[t].inc = act[tmr[t].a].inc THEN "exit.timer.afterrestart" ELSE "exit.timer",
                        tmr[t].st = "ended" /\ E.how = "ready")
                 ELSE /\ G(IF t \in Actor /\ act[t].pc = "idle" /\ act[t].mq = <<>> /\ ~ChanOpen(t) THEN "exit.loop.closed"      \* left without stopped() after the last drop
-                          ELSE IF t \in Actor /\ act[t].pc \in {"stopping", "finishing"} THEN "exit.loop.callback"
+                          ELSE IF t \in Actor /\ act[t].pc \in {"stopping", "finishing"} THEN (IF act[t].stream THEN "exit.loop.callback.stream" ELSE "exit.loop.callback")
                           ELSE "exit.loop", t \in Actor /\ act[t].pc \in {"done", "failed"})
                      /\ G("exit.how", (E.how = "panic") <=> (act[t].why = "panic"))
              /\ cur' = None /\ yl' = FALSE /\ UNCHANGED sys
